@@ -1,0 +1,32 @@
+//go:build verif
+
+package hc
+
+import (
+	"github.com/brutella/dnssd"
+	"github.com/brutella/hc/accessory"
+	"github.com/brutella/hc/db"
+	"github.com/brutella/hc/hap"
+	"github.com/brutella/hc/hap/http"
+)
+
+// Verification hooks, only compiled with the "verif" build tag.
+
+// VerifResponder, when set, replaces the mDNS responder of every new transport,
+// so that a simulator sees the announced TXT records without multicast sockets.
+var VerifResponder func(r dnssd.Responder) dnssd.Responder
+
+func verifResponder(r dnssd.Responder) dnssd.Responder {
+	if VerifResponder != nil {
+		return VerifResponder(r)
+	}
+	return r
+}
+
+// Accessors on the otherwise private state of a transport.
+
+func (t *ipTransport) VerifTxtRecords() map[string]string   { return t.config.txtRecords() }
+func (t *ipTransport) VerifContext() hap.Context            { return t.context }
+func (t *ipTransport) VerifDatabase() db.Database           { return t.database }
+func (t *ipTransport) VerifContainer() *accessory.Container { return t.container }
+func (t *ipTransport) VerifServer() *http.Server            { return t.server }
